@@ -534,13 +534,30 @@ func (cs *ChainState) PruneOldData(stateRoot types.StateRoot, headerHash types.H
 	}
 	cutoff := len(cs.persistedEntries) - fuzzenv.FuzzPersistentRetainBlocks
 	fuzzMemoryOnly := fuzzenv.Enabled()
+	retained := cs.persistedEntries[cutoff:]
 	for _, old := range cs.persistedEntries[:cutoff] {
-		cs.repo.DeleteStateData(cs.repo.Database(), old.stateRoot)
-		cs.repo.DeleteBlock(cs.repo.Database(), old.headerHash, old.slot)
+		// State data is stored by state root and blocks by header hash. A block that was
+		// imported again later (a fork back to an earlier block) has a newer entry with the
+		// same hash and root inside the retained window: its data is still live.
+		rootLive, blockLive := false, false
+		for _, e := range retained {
+			rootLive = rootLive || e.stateRoot == old.stateRoot
+			blockLive = blockLive || e.headerHash == old.headerHash
+		}
+		if !rootLive {
+			cs.repo.DeleteStateData(cs.repo.Database(), old.stateRoot)
+		}
+		if !blockLive {
+			cs.repo.DeleteBlock(cs.repo.Database(), old.headerHash, old.slot)
+		}
 		if !fuzzMemoryOnly {
-			cs.persistentRepo.DeleteStateData(cs.persistentRepo.Database(), old.stateRoot)
-			cs.persistentRepo.DeleteBlockByHash(cs.persistentRepo.Database(), types.OpaqueHash(old.headerHash))
-			cs.persistentRepo.DeleteHeaderTimeSlot(cs.persistentRepo.Database(), old.headerHash)
+			if !rootLive {
+				cs.persistentRepo.DeleteStateData(cs.persistentRepo.Database(), old.stateRoot)
+			}
+			if !blockLive {
+				cs.persistentRepo.DeleteBlockByHash(cs.persistentRepo.Database(), types.OpaqueHash(old.headerHash))
+				cs.persistentRepo.DeleteHeaderTimeSlot(cs.persistentRepo.Database(), old.headerHash)
+			}
 		}
 	}
 	cs.persistedEntries = cs.persistedEntries[cutoff:]
